@@ -48,12 +48,14 @@ var fullName = map[string]string{
 	"WithOpt": "pkg.WithOpt", "Svc": "pkg.Svc", "Get": "pkg.Svc.Get", "Other": "pkg.Svc.Other", "Lonely": "pkg.Lonely",
 	"OptMsg": "opts.OptMsg", "msg_opt": "opts.msg_opt", "field_opt": "opts.field_opt", "pkg": "pkg", "opts": "opts",
 	"WithOpt2": "pkg.WithOpt2", "UsesKind": "pkg.UsesKind", "Payload": "pkg.Payload", "Holder": "opts.Holder", "any_opt": "opts.any_opt", "WithAny": "pkg.WithAny",
+	"Far": "pkg.Svc.Far", "Remote": "pkg.Remote",
 }
 
 var sources = map[string]string{
 	"a.proto": `syntax = "proto2";
 package pkg;
 import "opts.proto";
+import "c.proto";
 // c:pkg.In
 message In {
   // c:pkg.In.q
@@ -131,6 +133,16 @@ service Svc {
   rpc Get(In) returns (Out);
   // c:pkg.Svc.Other
   rpc Other(Unrelated) returns (MapVal);
+  // c:pkg.Svc.Far
+  rpc Far(In) returns (Remote);
+}
+`,
+	"c.proto": `syntax = "proto2";
+package pkg;
+// c:pkg.Remote
+message Remote {
+  // c:pkg.Remote.r
+  optional string r = 1;
 }
 `,
 	"lonely.proto": `syntax = "proto2";
